@@ -90,6 +90,8 @@ pub struct InPipe {
 #[derive(Default)]
 pub struct OutPipe {
     buf: VecDeque<u8>,
+    /// write calls the pipe currently holds (the unit of `capacity`)
+    held_writes: usize,
     /// bytes the client has read off the pipe but not yet parsed
     client_buf: VecDeque<u8>,
     capacity: Option<usize>,
@@ -447,6 +449,7 @@ impl Sim {
                 let mut st = self.st.borrow_mut();
                 let mut waker = None;
                 if !st.stdout.buf.is_empty() {
+                    st.stdout.held_writes = 0;
                     let drained: Vec<u8> = st.stdout.buf.drain(..).collect();
                     st.stdout.client_buf.extend(drained);
                     waker = st.stdout.writer.take();
@@ -541,11 +544,15 @@ impl futures::io::AsyncWrite for ServerStdout {
         let sim = current().expect("no simulation");
         let waiters = {
             let mut st = sim.st.borrow_mut();
-            let room = match st.stdout.capacity {
-                Some(cap) => cap.saturating_sub(st.stdout.buf.len()),
-                None => usize::MAX,
+            // Capacity is counted in write calls, not bytes: which of two equally permitted
+            // messages is written first depends on HashMap iteration order inside the server
+            // (uncontrolled), and a byte budget would let that order decide when the writer
+            // blocks, i.e. leak into the schedule.
+            let full = match st.stdout.capacity {
+                Some(cap) => st.stdout.held_writes >= cap,
+                None => false,
             };
-            if room == 0 {
+            if full {
                 st.counters.output_backpressure += 1;
                 st.stdout.writer = Some(cx.waker().clone());
                 // a client parked in a read drains the pipe when it runs again
@@ -556,7 +563,8 @@ impl futures::io::AsyncWrite for ServerStdout {
                 }
                 return Poll::Pending;
             }
-            let n = room.min(data.len());
+            let n = data.len();
+            st.stdout.held_writes += 1;
             st.stdout.buf.extend(&data[..n]);
             st.events.push(Ev::ServerWrite { bytes: n });
             (n, std::mem::take(&mut st.stdout.client_waiters))
